@@ -77,7 +77,7 @@ DIAG_KINDS = [
     (r"does not fit in 64 bits", "evaluation", 4),
     (r"cannot apply operation|unknown function|expected \d+ arguments|could not interpolate", "evaluation", 4),
     (r"does not evaluate to an integer", "not_an_integer", 5),
-    (r"must lie between 0 and \$10000|relocated address would be negative", "pc_out_of_range", 8),
+    (r"must lie between 0 and \$(?:10000|FFFF)|relocated address would be negative", "pc_out_of_range", 8),
     (r"cannot loop .* times", "loop_budget", 9),
     (r"may be nested at most \d+ levels deep", "nested_too_deep", 10),
     (r"cyclic import", "cyclic_import", 6),
@@ -277,6 +277,8 @@ def gen_stmt(rng, names, macros, depth):
         return '.segment "s%d" { nop }' % rng.randrange(3)
     if r < 0.965:
         return '.define segment { name = "s%d" start = $%04x }' % (rng.randrange(3), rng.choice([0x1000, 0x1001, 0x2000, 0x4000]))
+    if r < 0.972:
+        return "segments: { %s: { %s: nop } }" % (rng.choice(["default", "s0", "s1", "other"]), rng.choice(["start", "end", "mid"]))
     return rng.choice([".assert 1 == 1", ".trace (a)", ".test \"t\" { nop }", "// c", "/* b */ nop"])
 
 
@@ -704,6 +706,23 @@ class Run:
             elif (pred["r"] == "cycle_reported") != cyc:
                 self.chk.tie_break("correspondence:site", "import graph with relative paths %s: model predicts %s, implementation %s %s" % (graph, pred["r"], cls, det), {"files": files})
 
+    def reserved_names(self):
+        """programs that define the paths the assembler defines itself (`segments.<name>.start` / `.end`), as labels, constants,
+        variables, through nested scopes, for the default and for declared segments: 'cannot redefine symbol', never a panic"""
+        r = self.model.call({"cmd": "clash"})
+        pred = {"diag": "diag:redefinition", "panic": "panic"}[r["r"]]
+        for seg, decl in (("default", ""), ("a", '.define segment { name = "a" start = $1000 }\n')):
+            for leaf in ("start", "end"):
+                for body in ("%s: nop", ".const %s = 1", ".var %s = 1", "%s: { nop }"):
+                    src = decl + "segments: { %s: { %s } }\nnop\n" % (seg, body % leaf)
+                    reply, fails = self.case("reserved_names", {"main.asm": src})
+                    self.expect("reserved_names", {"main.asm": src}, reply, fails, pred, "the program defines segments.%s.%s itself" % (seg, leaf))
+        # not a clash: other names below `segments`, a segment that does not exist, uses of the assembler's symbols
+        for src in ["segments: { default: { middle: nop } }\nlda segments.default.middle\n", "segments: { nosuch: { start: nop } }\n",
+                    "lda segments.default.start\nlda segments.default.end\n", "segments: nop\n", "start: nop\nend: nop\ndefault: nop\n"]:
+            reply, fails = self.case("reserved_names", {"main.asm": src})
+            self.expect("reserved_names", {"main.asm": src}, reply, fails, "ok", "names near the assembler's own symbols")
+
     def listing_widths(self):
         """bytes per listing line, as configured in mos.toml ([formatting.listing] num-bytes-per-line): 0 included"""
         srcs = ["lda #1\n.byte 1,2,3,4,5,6,7,8,9,10\nl: jmp l\n", "nop\n", ".loop 20 { .word index }\n"]
@@ -848,6 +867,12 @@ class Run:
                 if rng.random() < 0.5:
                     files["other.asm"] = bytes(rng.randrange(256) for _ in range(10))
             cases.append(("real", files))
+        for k, src in enumerate(['.define segment { name = "a" start = $10000 }\n', '.define segment { name = "a" start = $ffff }\n',
+                                 '.define segment { name = "a" start = $ffff }\nnop\n', '.define segment { name = "a" start = $ffff }\nnop\nnop\n',
+                                 '.define segment { name = "a" start = $fffe pc = $ffff }\nnop\n', '* = $10000\n', '* = $ffff\nnop\n', '* = $10000\nnop\n',
+                                 '.define segment { name = "a" start = 0 }\n', '.define bank { name = "b" }\n.define segment { name = "a" start = $10000 bank = "b" }\n',
+                                 'segments: { default: { start: nop } }\n']):
+            cases.append(("real_edges:%d" % k, {"main.asm": src.encode()}))
         for stream, files in cases:
             # inputs the probe can take (valid UTF-8) are screened through H1 first: the real binary has no observer
             try:
@@ -931,6 +956,7 @@ def run(chk):
     R.import_paths(300 if thorough else 50)
     R.listing_redefined_segments()
     R.listing_widths()
+    R.reserved_names()
     R.macro_graphs(200 if thorough else 30)
     R.nesting()
     R.greedy_templates()
